@@ -549,6 +549,121 @@ func runC07(p *core.Prog, r *core.Report, tier string) {
 	}
 	r.Floor("C07.f score comparisons in best strategies", nScore, 6)
 
+	// ---- (k) the first acceptable response is adopted: the candidate is kept (not replaced by the response just
+	// received) only where a candidate is known to exist ----
+	nKeep := 0
+	for _, f := range fns {
+		if !strings.HasSuffix(core.RelPkg(f.Pkg.Pkg.Path()), "/best") {
+			continue
+		}
+		perFn := map[string]int{}
+		// the block in which the value a response was taken from was received (nil when v does not derive from a receive)
+		receivedIn := func(v ssa.Value) *ssa.BasicBlock {
+			var blk *ssa.BasicBlock
+			ds.D(v).Any(func(x *core.VD) bool {
+				switch y := x.Val.(type) {
+				case *ssa.Extract:
+					if _, isSel := y.Tuple.(*ssa.Select); isSel {
+						blk = y.Block()
+						return true
+					}
+				case *ssa.UnOp:
+					if y.Op == token.ARROW {
+						blk = y.Block()
+						return true
+					}
+				}
+				return false
+			})
+			return blk
+		}
+		core.EachInstr(f, func(in ssa.Instruction) {
+			m, ok := in.(*ssa.Phi)
+			if !ok || !core.Nillable(m.Type()) || !core.InLoop(m) {
+				return
+			}
+			var recvBlock *ssa.BasicBlock
+			for _, e := range m.Edges {
+				if _, isPhi := e.(*ssa.Phi); isPhi {
+					continue
+				}
+				if b := receivedIn(e); b != nil {
+					recvBlock = b
+				}
+			}
+			if recvBlock == nil {
+				return
+			}
+			for i, e := range m.Edges {
+				old, isPhi := e.(*ssa.Phi)
+				if !isPhi {
+					continue
+				}
+				pred := m.Block().Preds[i]
+				if !recvBlock.Dominates(pred) {
+					continue
+				}
+				nKeep++
+				perFn[m.Comment]++
+				pos := m.Pos()
+				if ifi, ok := pred.Instrs[len(pred.Instrs)-1].(*ssa.If); ok {
+					pos = core.IfPos(ifi)
+				}
+				lf := core.Leaf{V: old, At: pred.Instrs[len(pred.Instrs)-1], Pred: pred, To: m.Block()}
+				w := core.UnguardedLeaf(ds, f, nil, lf, core.NonNilGuard(ds, old))
+				r.Check(w == nil, "C07.k", fmt.Sprintf("%s|%s|keep#%d", core.FnKey(f), m.Comment, perFn[m.Comment]), p.Pos(pos), "the candidate is kept in favour of a new response only where a candidate exists",
+					"a received response can be passed over while no candidate exists yet (the first acceptable response is not adopted: when no response scores above the initial score the strategy fails although responses arrived)", p.WitnessText(w)...)
+			}
+		})
+	}
+	r.Floor("C07.k keep-candidate edges in best strategies", nKeep, 6)
+
+	// ---- (l) the score is monotone in the value: arbitrary-precision amounts are not truncated to 64 bits ----
+	nBig, nTrunc := 0, 0
+	for _, f := range fns {
+		if !strings.HasSuffix(core.RelPkg(f.Pkg.Pkg.Path()), "/best") {
+			continue
+		}
+		core.EachInstr(f, func(in ssa.Instruction) {
+			c, ok := in.(*ssa.Call)
+			if !ok {
+				return
+			}
+			callee := c.Call.StaticCallee()
+			if callee == nil || callee.Signature.Recv() == nil {
+				return
+			}
+			rt := callee.Signature.Recv().Type().String()
+			if !strings.HasSuffix(rt, "math/big.Int") && !strings.HasSuffix(rt, "uint256.Int") && !strings.HasSuffix(rt, "math/big.Float") {
+				return
+			}
+			nBig++
+			switch callee.Name() {
+			case "Uint64", "Int64":
+				// tolerated only behind the accessor's own range test
+				guarded := core.Unguarded(ds, f, nil, func(x ssa.Instruction) bool { return x == in }, func(cd core.Cond) int {
+					if cd.B == nil {
+						return -1
+					}
+					if !cd.B.MentionsCall("IsUint64") && !cd.B.MentionsCall("IsInt64") {
+						return -1
+					}
+					if cd.BoolOnEdge(0) {
+						return 0
+					}
+					return 1
+				}) == nil
+				nTrunc++
+				r.Check(guarded, "C07.l", fmt.Sprintf("%s|no-truncation#%d", core.FnKey(f), nTrunc), p.Pos(c.Pos()), "the 64-bit accessor is used only behind its range test",
+					"a score is derived from an arbitrary-precision amount through "+callee.Name()+"(), which is undefined/truncating beyond 64 bits: a response worth more than 2^64 wei scores below a cheaper one, so 'best' does not return the highest-scoring response")
+			}
+		})
+	}
+	r.Floor("C07.l arbitrary-precision operations in best strategies", nBig, 1)
+	if nTrunc == 0 {
+		r.Hold("C07.l", "best|no-truncation", "", "no 64-bit accessor of an arbitrary-precision amount is used in the best strategies")
+	}
+
 	// ---- (g) majority threshold ----
 	nThr := 0
 	for _, f := range fns {
